@@ -118,3 +118,95 @@ pub fn record(args: &Args) {
     }
     out.flush();
 }
+
+/// structural pointer -> diagram of builder `b` (the public get_or_insert normalises; the printed pointers are normal already)
+fn unsp<'a>(b: &'a RobddBuilder<'a, AllIteTable<BddPtr<'a>>>, v: &Value) -> BddPtr<'a> {
+    let a = v.as_array().unwrap();
+    if a.len() == 1 {
+        return if a[0].as_u64().unwrap() == 0 { BddPtr::PtrTrue } else { BddPtr::PtrFalse };
+    }
+    let lo = unsp(b, &a[2]);
+    let hi = unsp(b, &a[3]);
+    let n = b.get_or_insert(rsdd::repr::BddNode::new(VarLabel::new_usize(a[1].as_u64().unwrap() as usize), lo, hi));
+    if a[0].as_u64().unwrap() == 1 { n.neg() } else { n }
+}
+
+fn tt_of(p: BddPtr, nv: usize) -> Vec<u64> {
+    (0..(1usize << nv))
+        .map(|a| {
+            let mut cur = p;
+            let mut neg = false;
+            loop {
+                match cur {
+                    BddPtr::PtrTrue => return (!neg) as u64,
+                    BddPtr::PtrFalse => return neg as u64,
+                    BddPtr::Reg(n) | BddPtr::Compl(n) => {
+                        if cur.is_neg() {
+                            neg = !neg;
+                        }
+                        cur = if (a >> n.var.value_usize()) & 1 == 1 { n.high } else { n.low };
+                    }
+                }
+            }
+        })
+        .collect()
+}
+
+/// `rv replay machine --in vectors`: every TLC-printed call history of BddMachine (GenMachine.tla) in a fresh real builder
+pub fn replay(args: &Args) {
+    let text = std::fs::read_to_string(args.str("in", "")).expect("read vectors");
+    let (mut n, mut steps, mut mismatches, mut ndrift) = (0usize, 0usize, 0usize, 0usize);
+    let mut bad: Vec<Value> = vec![];
+    let mut drift: Vec<Value> = vec![];
+    for line in text.lines() {
+        let v: Value = serde_json::from_str(line).unwrap();
+        n += 1;
+        let nv = v["nv"].as_u64().unwrap() as usize;
+        let ord: Vec<VarLabel> = v["order"].as_array().unwrap().iter().map(|x| VarLabel::new_usize(x.as_u64().unwrap() as usize)).collect();
+        let builder: RobddBuilder<AllIteTable<BddPtr>> = RobddBuilder::new(VarOrder::new(&ord));
+        let b = &builder;
+        for x in 0..nv {
+            b.var(VarLabel::new_usize(x), true);
+        }
+        for c in v["calls"].as_array().unwrap() {
+            steps += 1;
+            let a: Vec<BddPtr> = c["args"].as_array().unwrap().iter().map(|p| unsp(b, p)).collect();
+            let lbl = VarLabel::new_usize(c["v"].as_u64().unwrap() as usize);
+            let pol = c["b"].as_bool().unwrap();
+            let op = c["op"].as_str().unwrap().to_string();
+            let r = guarded(|| match op.as_str() {
+                "ite" => b.ite(a[0], a[1], a[2]),
+                "cond" => b.condition(a[0], lbl, pol),
+                "exists" => b.exists(a[0], lbl),
+                _ => b.xor(a[0], a[1]),
+            });
+            let exp: Vec<u64> = c["tt"].as_array().unwrap().iter().map(|x| x.as_u64().unwrap()).collect();
+            match r {
+                Ok(r) if tt_of(r, nv) == exp => {
+                    if sp(r) != c["res"] || b.num_recursive_calls() as u64 != c["calls"].as_u64().unwrap() {
+                        ndrift += 1;
+                        if drift.len() < 3 {
+                            drift.push(json!({"vector": v, "got": sp(r), "calls": b.num_recursive_calls()}));
+                        }
+                        break;
+                    }
+                }
+                Ok(r) => {
+                    mismatches += 1;
+                    if bad.len() < 10 {
+                        bad.push(json!({"vector": v, "at": c, "got_tt": tt_of(r, nv), "got": sp(r)}));
+                    }
+                    break;
+                }
+                Err(m) => {
+                    mismatches += 1;
+                    if bad.len() < 10 {
+                        bad.push(json!({"vector": v, "at": c, "panic": m}));
+                    }
+                    break;
+                }
+            }
+        }
+    }
+    println!("{}", json!({"vectors": n, "steps": steps, "mismatches": mismatches, "bad": bad, "ndrift": ndrift, "drift": drift}));
+}
